@@ -226,6 +226,10 @@ class ExprMixin:
             if isinstance(op, ast.Mult):
                 sq, n = (l, r) if isinstance(l, VSeq) else (r, l)
                 n = self.unwrap_opt(n, st, "repeat count")
+                if len(sq.pieces) == 1 and sq.pieces[0].kind == "view" and self.entails(st, sq.length() == 1):
+                    # a symbolic one-element sequence (e.g. a pad character): repeat its single element
+                    p0 = sq.pieces[0]
+                    sq = VSeq(sq.elem, [Piece("lit", items=[p0.a[p0.lo]])], is_str=sq.is_str)
                 res = seqs.repeat(sq, self.to_mathint(self.as_int(n)))
                 yield (res if res.is_str else self.box_list(res, st)), st
                 return
@@ -414,19 +418,41 @@ class ExprMixin:
             if z3.is_false(tv):
                 yield from self.ev(node.orelse, s)
                 continue
-            if (is_simple(node.body) and is_simple(node.orelse)) or self.spec_mode:
-                o1 = list(self.ev(node.body, s))
-                if len(o1) == 1 and not isinstance(o1[0][0], Exc):
-                    o2 = list(self.ev(node.orelse, o1[0][1]))
-                    if len(o2) == 1 and not isinstance(o2[0][0], Exc):
-                        try:
-                            yield self.merge(tv, o1[0][0], o2[0][0], o2[0][1]), o2[0][1]
-                            continue
-                        except Unsupported:
-                            if self.spec_mode:
-                                raise
-                if self.spec_mode:
-                    raise Unsupported("forking conditional in spec expression")
+            # try to evaluate both branches under their guards and merge the values (no path split);
+            # facts and obligations of each branch are conditional on its guard
+            merged = None
+            n_obl = len(self.obligs)
+            try:
+                sa = s.copy(); sa.assume(tv); la = len(sa.pc)
+                oa = list(self.ev(node.body, sa))
+                sb = s.copy(); sb.assume(z3.Not(tv)); lb = len(sb.pc)
+                ob = list(self.ev(node.orelse, sb))
+                if len(oa) == 1 and len(ob) == 1 and not isinstance(oa[0][0], Exc) and not isinstance(ob[0][0], Exc):
+                    va, sa2 = oa[0]
+                    vb, sb2 = ob[0]
+                    tmp = s.copy()
+                    tmp.heap.update({r_: o_ for r_, o_ in sa2.heap.items() if r_ not in tmp.heap})
+                    tmp.heap.update({r_: o_ for r_, o_ in sb2.heap.items() if r_ not in tmp.heap})
+                    mv = self.merge(tv, va, vb, tmp)
+                    for f in sa2.pc[la:]:
+                        s.assume(z3.Implies(tv, f))
+                    for f in sb2.pc[lb:]:
+                        s.assume(z3.Implies(z3.Not(tv), f))
+                    for f in tmp.pc[len(s.pc) - len(sa2.pc[la:]) - len(sb2.pc[lb:]):]:
+                        pass
+                    s.heap.update({r_: o_ for r_, o_ in tmp.heap.items() if r_ not in s.heap})
+                    for f in tmp.pc:
+                        if not any(f is g for g in s.pc):
+                            s.assume(f)
+                    merged = mv
+            except Unsupported:
+                merged = None
+            if merged is not None:
+                yield merged, s
+                continue
+            del self.obligs[n_obl:]
+            if self.spec_mode:
+                raise Unsupported("forking conditional in spec expression")
             s2 = s.copy()
             s.assume(tv)
             yield from self.ev(node.body, s)
